@@ -80,9 +80,9 @@ type world struct {
 	shadow   [numNotifiers]map[string]map[int]int // the specification relation: name -> target -> priority
 	frames   []frame
 	frameSeq int
-	armed    []string   // operation a re-entrant target performs inside its next HandleNotification / BatchMode
-	deferred [][]string // registry updates of fired re-entrant operations, applied after the observation
-	boom     int        // cycles through the panic value kinds
+	armed    [][]string                     // QUEUE of operations: every callback of a re-entrant target pops the head and performs it
+	snaps    map[int]map[string]map[int]int // per Notify invocation of this line: the specification relation when it began
+	boom     int                            // cycles through the panic value kinds
 }
 
 type payload struct {
@@ -162,15 +162,38 @@ func (t *plainT) HandleNotification(name string, data, producer any) {
 	}
 }
 
-// fire performs the armed operation (if any) from inside the running callback.
+// fire pops the head of the queue of armed operations (if any) and performs it from inside the running callback.  The
+// operation's own callbacks may reach re-entrant targets again: calls nest as deep as the queue is long.  Operations that
+// change registrations make no callbacks, operations that make callbacks change no registration, so the harness'
+// registry can be updated right away.
 func (w *world) fire() {
-	if w.armed == nil {
+	if len(w.armed) == 0 {
 		return
 	}
-	f := w.armed
-	w.armed = nil
+	f := w.armed[0]
+	w.armed = w.armed[1:]
+	w.shadowOp(f)
 	w.doOp(f)
-	w.deferred = append(w.deferred, f)
+}
+
+// snapshot remembers the specification relation of notifier n at the beginning of Notify invocation id (only needed when
+// an armed operation may change it while the invocation is still delivering).
+func (w *world) snapshot(id, n int) {
+	if len(w.armed) == 0 {
+		return
+	}
+	c := make(map[string]map[int]int, len(w.shadow[n]))
+	for k, set := range w.shadow[n] {
+		m := make(map[int]int, len(set))
+		for t, p := range set {
+			m[t] = p
+		}
+		c[k] = m
+	}
+	if w.snaps == nil {
+		w.snaps = make(map[int]map[string]map[int]int)
+	}
+	w.snaps[id] = c
 }
 
 type batchT struct{ plainT }
@@ -209,10 +232,14 @@ func segs(name string) []string {
 	return strings.FieldsFunc(name, func(r rune) bool { return r == '.' })
 }
 
-func (w *world) shadowPrio(n, t int, name string) (int, bool) {
+func (w *world) shadowPrio(frame, n, t int, name string) (int, bool) {
+	reg := w.shadow[n]
+	if snap, ok := w.snaps[frame]; ok { // the registrations when that Notify invocation began
+		reg = snap
+	}
 	s := segs(name)
 	for k := len(s); k >= 1; k-- {
-		if set, ok := w.shadow[n][strings.Join(s[:k], ".")]; ok {
+		if set, ok := reg[strings.Join(s[:k], ".")]; ok {
 			if p, ok2 := set[t]; ok2 {
 				return p, true
 			}
@@ -236,7 +263,7 @@ func (w *world) observe(n int) string {
 			bs = append(bs, c)
 			continue
 		}
-		p, ok := w.shadowPrio(c.n, c.t, c.name)
+		p, ok := w.shadowPrio(c.frame, c.n, c.t, c.name)
 		if prev, seen := last[c.frame]; seen && (!ok || !prev.have || prev.p < p) {
 			order = "order-bad"
 		}
@@ -288,6 +315,7 @@ func (w *world) observe(n int) string {
 	out := fmt.Sprintf("%s | rec=%d | L%d E%d", strings.Join(toks, " "), w.recs, w.ns[n].BatchLevel(), e)
 	w.calls = w.calls[:0]
 	w.recs = 0
+	w.snaps = nil
 	return out
 }
 
@@ -314,6 +342,7 @@ func (w *world) doOp(f []string) bool {
 			fr.wantProd = nil
 		}
 		w.frames = append(w.frames, fr)
+		w.snapshot(fr.id, n)
 		w.ns[n].Notify(string(hx.UnHex(f[2])), fr.wantProd)
 		w.frames = w.frames[:len(w.frames)-1]
 	case "notifyd":
@@ -324,6 +353,7 @@ func (w *world) doOp(f []string) bool {
 		w.frameSeq++
 		fr := frame{id: w.frameSeq, n: n, wantData: w.dataKind(k), wantProd: w}
 		w.frames = append(w.frames, fr)
+		w.snapshot(fr.id, n)
 		w.ns[n].NotifyWithData(string(hx.UnHex(f[2])), fr.wantData, w)
 		w.frames = w.frames[:len(w.frames)-1]
 	case "reg":
@@ -434,7 +464,7 @@ func (a *area) Run(line string) string {
 		switch f[2] {
 		case "reg", "unreg", "merge", "enable", "nreset", "start", "end", "notify", "notifyd":
 			idx(f[3], numNotifiers)
-			w.armed = f[2:]
+			w.armed = append(w.armed, f[2:])
 		default:
 			return "bad-op"
 		}
@@ -449,12 +479,7 @@ func (a *area) Run(line string) string {
 		}
 		w.shadowOp(f)
 	}
-	out := w.observe(n)
-	for _, d := range w.deferred {
-		w.shadowOp(d)
-	}
-	w.deferred = w.deferred[:0]
-	return out
+	return w.observe(n)
 }
 
 func main() {
